@@ -113,6 +113,24 @@ def is_null_value(e):
         (e.get("k") == "initlist" and not e.get("inits"))
 
 
+def path_value(p, e, before=None):
+    """Value of expression e on path p just before element `before`: looks through casts, copy/move
+    constructions and std::move/forward, and through locals assigned (or initialised) on the path."""
+    for _ in range(8):
+        e = strip_all_casts(e)
+        if e.get("k") == "construct" and len(e.get("args", [])) == 1:
+            e = e["args"][0]
+            continue
+        if e.get("k") == "call" and callee_name(e) in ("std::move", "std::forward") and e.get("args"):
+            e = e["args"][0]
+            continue
+        v = strip_all_casts(p.value_of(e, before))
+        if v is e or v.get("id") == e.get("id"):
+            return v
+        e = v
+    return strip_all_casts(e)
+
+
 def returned_value(p):
     """The value returned at the end of path p, resolved through locals assigned on the path."""
     r = p.returns()
